@@ -785,7 +785,7 @@ def render(tokens, style='space', rng=None, lt=None, comments=False):
                         (' ' * rng.randint(0, 4) if rng.random() < 0.5 else '')
                 elif comments and r < 0.95:
                     sep = rng.choice([' /* c%d */ ', '/*c%d*/', '/* c%d  */', '/** c%d **/', ' /*%d // */ ',
-                                      '/*\U0001F600%d\U0001F600*/']) % i \
+                                      '/*\U0001F600%d\U0001F600*/', '/*/ %d */', '/*/%d*/', '/***%d***/']) % i \
                         if rng.random() < 0.6 else rng.choice(['/*m%d%s*/', '/**%s * m%d%s */', '/*%s%s%s m%d */', '/* f\x0cf m%d%s v\x0bv%s \x85 */',
                                                                '/*\x1c%s\x1d m%d \x1e%s*/']).replace(
                             '%s', lt).replace('%d', str(i))
